@@ -402,7 +402,7 @@ SUBS = {"step": Sub(predicate, strategy=cases), "exact": Sub(exact_pred, strateg
 
 
 def jobs(tier):
-    n1, n2, n3, n4 = (10, 12, 3, 12) if tier == "quick" else (260, 250, 40, 250)
+    n1, n2, n3, n4 = (10, 12, 3, 12) if tier == "quick" else (1200, 1200, 150, 1200)
     return ([{"sub": "step", "n": n1, "shard": i} for i in range(14)] +
             [{"sub": "exact", "n": n2, "shard": i} for i in range(4)] +
             [{"sub": "order", "n": n3, "shard": i} for i in range(2)] +
